@@ -118,7 +118,9 @@ pub fn make_cause(uid: Uid) {
         Nothing,
     }
     let todo = w(|w| {
+        let in_cb = w.cur_op_in_cb;
         let s = &mut w.srcs[uid];
+        s.cause_from_cb |= in_cb;
         match s.spec.kind {
             Kind::Ping => match s.ping_handles.first().cloned() {
                 Some(p) => {
@@ -147,6 +149,8 @@ pub fn make_cause(uid: Uid) {
 fn send(uid: Uid) {
     // the message is recorded before the call; a refused message is taken back
     let (id, tx_kind) = w(|w| {
+        let in_cb = w.cur_op_in_cb;
+        w.srcs[uid].cause_from_cb |= in_cb;
         let id = ((uid as u64) << 32) | w.next_msg;
         w.next_msg += 1;
         let s = &mut w.srcs[uid];
@@ -181,6 +185,8 @@ fn send(uid: Uid) {
 
 fn stream_push(uid: Uid) {
     let wk = w(|w| {
+        let in_cb = w.cur_op_in_cb;
+        w.srcs[uid].cause_from_cb |= in_cb;
         let id = ((uid as u64) << 32) | w.next_msg;
         w.next_msg += 1;
         let st = w.srcs[uid].stream.clone()?;
@@ -318,6 +324,12 @@ fn fill_fd(uid: Uid, child: u8, unfill: bool) {
 }
 
 pub fn exec_op(op: &Op, ctx: Ctx) {
+    let prev_in_cb = w(|w| std::mem::replace(&mut w.cur_op_in_cb, ctx != Ctx::Outside));
+    exec_op_inner(op, ctx);
+    w(|w| w.cur_op_in_cb = prev_in_cb);
+}
+
+fn exec_op_inner(op: &Op, ctx: Ctx) {
     let Some(h) = w(|w| {
         if ctx != Ctx::Outside {
             w.cov_inops |= 1 << opcode(op);
